@@ -3,7 +3,7 @@
 # working tree of /repo, nothing is committed) and the check of a property it violated must fail.
 # usage: tools/canaries.sh [commit property]...   (default: the list below)
 cd /verif
-LIST="a5bb467:C08 28a820b:C05 5ec6a45:C04 cc910a3:C11 a0f915a:C10 1df4e4d:C16 019585e:C16 ebe3087:C06 e63db7a:C04 2430315:C02 062bf26:C04 12f7733:C18 23837cf:C18 96fcf50:C18 75c679c:C18"
+LIST="a5bb467:C08 28a820b:C05 5ec6a45:C04 cc910a3:C11 a0f915a:C10 1df4e4d:C16 019585e:C16 ebe3087:C06 e63db7a:C04 2430315:C02 062bf26:C04 12f7733:C18 23837cf:C18 96fcf50:C18 75c679c:C18 94a2110:C16"
 [ $# -gt 0 ] && LIST="$*"
 if [ -n "$(git -C /repo status --porcelain)" ]; then echo "repo has uncommitted changes"; exit 2; fi
 mkdir -p /tmp/canary; cp -r evidence /tmp/canary/evidence.bak
